@@ -279,6 +279,7 @@ SLOTS = [
     ("get", "←", " 1", None, None), ("set", "1→", " 1", None, None), ("loopvar", "3(", "|n)", None, None),
     ("fname-def", "@", ":1|d;", None, None), ("fname-call", "@", ";", None, None),
     ("param1", "@f:", "|1;", None, None), ("param2", "@f:1:", ":b|1;", None, None), ("arity", "λ", "|1;", None, None),
+    ("param-star", "@f:*", "|1;0@f;", None, None), ("param-star2", "@f:a:*", ":1|1;", None, None),
 ]
 # the last two put an exploit-shaped literal / comment directly in front of the slot (text must not leak from one token into the next)
 WRAPPERS = [("", ""), ("3(", ")"), ("λ", ";1"), ('`");x()#`', ""), ("«;x()#«‛)(", "")]
